@@ -10,6 +10,7 @@ Nothing structural is declined (std is trusted).
   RETRY     ... a block write that failed is remembered and never re-sent from its first byte          (found F30)
   RETRY     ... one way to the sink: no second, fallback way of writing the same slices on some error kind; the module
             inspects no error kind but the one it retries on
+  SINK      ... one place hands blocks to the sink: the retry loop is called from flush_finished_block only
 """
 from ..lib import *
 from ..inventory import natural_loops
